@@ -504,20 +504,13 @@ func (s *Snapshotter) compact() error {
 	// handles.
 
 	// Flush the existing snapshot, ignoring errors since we will
-	// delete it momentarily.
+	// replace it momentarily. The handles stay in place (closed) until the
+	// new ones exist, so that a failure below never leaves them nil.
 	_ = s.buffered.Flush()
-	s.buffered = nil
-
-	// Close the file handle to the old snapshot
 	s.fh.Close()
-	s.fh = nil
 
-	// Delete the old file
-	if err := os.Remove(s.path); err != nil {
-		return fmt.Errorf("failed to remove old snapshot: %v", err)
-	}
-
-	// Move the new file into place
+	// Move the new file into place. os.Rename replaces the destination
+	// atomically, so there is never a moment without a snapshot.
 	if err := os.Rename(newPath, s.path); err != nil {
 		return fmt.Errorf("failed to install new snapshot: %v", err)
 	}
